@@ -208,7 +208,11 @@ def _wtask(item):
     return st
 
 
-def explore_all(execute, cfgs, budget=None, workers=None, split_target=4096, selftest=48, progress=None):
+class Deadline(Exception):
+    pass
+
+
+def explore_all(execute, cfgs, budget=None, workers=None, split_target=4096, selftest=48, progress=None, deadline=None):
     """Explore every configuration's whole choice tree. Returns (Stats, selftest_mismatches)."""
     workers = workers or int(os.environ.get("VERIF_WORKERS", "0")) or min(16, os.cpu_count() or 1)
     total = Stats()
@@ -252,7 +256,15 @@ def explore_all(execute, cfgs, budget=None, workers=None, split_target=4096, sel
             # big-first ordering is unknown; small chunks keep the pool balanced
             with ctx.Pool(workers, initializer=_winit, initargs=(execute, cfgs, budget)) as pool:
                 done = 0
-                for st in pool.imap_unordered(_wtask, items, chunksize=1):
+                it = pool.imap_unordered(_wtask, items, chunksize=1)
+                while True:
+                    try:
+                        st = it.next(timeout=None if deadline is None else max(1.0, deadline - time.time()))
+                    except StopIteration:
+                        break
+                    except mp.TimeoutError:
+                        pool.terminate()
+                        raise Deadline("%d of %d work items finished" % (done, len(items)))
                     total.merge(st)
                     done += 1
                     if progress and done % 200 == 0:
